@@ -1460,17 +1460,29 @@ func VerifDefineInfo(n int) {
 
 // ---- C24: the LLM navigator's call graph ----
 
-var verifCallSites = []struct{ name, text string; row int; owner string }{
-	{"top-level-statement", "foo\n", 1, "top level"},
-	{"statement-inside-method", "def bar\nfoo\nend\n", 2, "bar"},
-	{"inside-class-method", "class Kk\ndef baz\nx = foo\nend\nend\n", 3, "baz"},
-	{"call-argument", "p(foo)\n", 1, "top level"},
-	{"inside-do-block", "[1].each do |e|\nfoo\nend\n", 2, "top level"},
-	{"if-condition", "if foo == 1\n2\nend\n", 1, "top level"},
-	{"elsif-condition", "if 1 == 2\n2\nelsif foo == 1\n3\nend\n", 3, "top level"},
-	{"unless-condition", "unless foo == 1\n2\nend\n", 1, "top level"},
-	{"while-condition", "while foo == 1\n2\nend\n", 1, "top level"},
-	{"assignment-right-hand-side", "y = foo\n", 1, "top level"},
+var verifCallSites = []struct {
+	name, text string
+	row        int
+	owner      string
+	n          int  // number of call sites (0 = 1)
+	arg        bool // foo takes one parameter
+}{
+	{"top-level-statement", "foo\n", 1, "top level", 0, false},
+	{"statement-inside-method", "def bar\nfoo\nend\n", 2, "bar", 0, false},
+	{"inside-class-method", "class Kk\ndef baz\nx = foo\nend\nend\n", 3, "baz", 0, false},
+	{"call-argument", "p(foo)\n", 1, "top level", 0, false},
+	{"inside-do-block", "[1].each do |e|\nfoo\nend\n", 2, "top level", 0, false},
+	{"if-condition", "if foo == 1\n2\nend\n", 1, "top level", 0, false},
+	{"elsif-condition", "if 1 == 2\n2\nelsif foo == 1\n3\nend\n", 3, "top level", 0, false},
+	{"unless-condition", "unless foo == 1\n2\nend\n", 1, "top level", 0, false},
+	{"while-condition", "while foo == 1\n2\nend\n", 1, "top level", 0, false},
+	{"assignment-right-hand-side", "y = foo\n", 1, "top level", 0, false},
+	{"two-calls-in-one-expression", "y = foo(1) + foo(2)\n", 1, "top level", 2, true},
+	{"nested-calls-on-one-row", "z = foo(foo(3))\n", 1, "top level", 2, true},
+	{"two-calls-on-two-rows", "y = foo(1)\nz = foo(2)\n", 2, "top level", 2, true},
+	{"two-calls-on-one-row-inside-method", "def bar\nfoo(1) + foo(2)\nend\n", 2, "bar", 2, true},
+	{"call-with-argument", "y = foo(1)\n", 1, "top level", 1, true},
+	{"three-calls-in-array-literal", "y = [foo(1), foo(2), foo(3)]\n", 1, "top level", 3, true},
 }
 
 // VerifCallGraph: method foo plus exactly one call site (kind concretised, preceded by 0-1
@@ -1482,6 +1494,13 @@ func VerifCallGraph(n int) {
 	s := verifInstallSym("a")
 	verifapi.WitnessList("Sym.a", verifKN(s.ka))
 	src := "def foo\nSym.a\nend\n"
+	if site.arg {
+		src = "def foo(a)\nSym.a\nend\n"
+	}
+	nsites := site.n
+	if nsites == 0 {
+		nsites = 1
+	}
 	rows := 3
 	if pad == 1 {
 		src += "zz = 1\n"
@@ -1492,13 +1511,14 @@ func VerifCallGraph(n int) {
 	verifapi.Witness("src", src)
 	verifapi.Witness("flags", "--llm-nav --target=foo")
 	verifapi.Witness("C24.callrow", verifItoa(callRow))
+	verifapi.Witness("C24.sites", verifItoa(nsites))
 	os.Args = []string{"ti", "./a.rb", "--llm-nav", "--target=foo"}
 	flags := cmd.NewExecuteFlags()
 	flags.IsLlmNav = true
 	out := verifRunFlags(src, flags, 0)
 	verifapi.Reach("ran")
 	verifapi.Classify("C24/total-callers-differs-from-number-of-call-sites/" + site.name)
-	verifapi.Assert(verifHasLine(out, "  - total callers: 1", ""), "C24-total")
+	verifapi.Assert(verifHasLine(out, "  - total callers: "+verifItoa(nsites), ""), "C24-total")
 	verifapi.Classify("C24/caller-entry-does-not-name-the-call-row/" + site.name)
 	verifapi.Assert(verifHasLine(out, "    - call point: ./a.rb:"+verifItoa(callRow), ""), "C24-row")
 }
@@ -1510,14 +1530,21 @@ func VerifCallGraph(n int) {
 // and next to a top-level decoy class with the same short name as the group's superclass but
 // different methods. Outputs must agree apart from rows and the Mm:: qualification.
 func VerifNamespaces(n int) {
-	variant := verifapi.Concrete(verifapi.Int("variant", 0, 3))
+	variant := verifapi.Concrete(verifapi.Int("variant", 0, 7))
 	depth := verifapi.Concrete(verifapi.Int("depth", 2, 3))
 	s := verifInstallSym("a")
 	verifapi.WitnessList("Sym.a", verifKN(s.ka))
-	group := "class Aa\ndef foo\nSym.a\nend\ndef self.make\n1\nend\nend\nclass Bb < Aa\ndef bar\nfoo\nend\nend\n"
+	// the class group; q qualifies the superclass references (`class Bb < Mm::Nn::Aa`)
+	groupQ := func(q string) string {
+		g := "class Aa\ndef foo\nSym.a\nend\ndef self.make\n1\nend\nend\nclass Bb < " + q + "Aa\ndef bar\nfoo\nend\nend\n"
+		if depth == 3 {
+			g += "class Cc < " + q + "Bb\nend\n"
+		}
+		return g
+	}
+	group := groupQ("")
 	last := "Bb"
 	if depth == 3 {
-		group += "class Cc < Bb\nend\n"
 		last = "Cc"
 	}
 	refs := func(q string) string {
@@ -1525,15 +1552,17 @@ func VerifNamespaces(n int) {
 	}
 	top := group + refs("")
 	wrapped := "module Mm\n" + group + "end\n" + refs("Mm::")
+	wrapped2q := "module Mm\nmodule Nn\n" + groupQ("Mm::Nn::") + "end\nend\n" + refs("Mm::Nn::")
 	decoy := "class Aa\ndef foo\n\"decoy\"\nend\ndef other\n2\nend\nend\n"
 	decoyAfter := "class Bb\ndef bar\n\"decoy\"\nend\nend\n"
 	glines := verifCountLines(group)
 	var a, b string
 	var name string
 	var at, delta int
+	qual, wrap := "Mm::", 0 // wrap > 0: B is A wrapped in `wrap` modules, references qualified by qual
 	switch variant {
 	case 0: // top-level vs wrapped: wrapping adds `module Mm` before row 1 and `end` after the group
-		a, b, name = top, wrapped, "wrapping-in-module-changes-analysis"
+		a, b, name, wrap = top, wrapped, "wrapping-in-module-changes-analysis", 1
 	case 1: // wrapped vs wrapped + decoy superclass namesake defined before
 		a, b, name = wrapped, decoy+wrapped, "top-level-namesake-of-superclass-before"
 		at, delta = 1, verifCountLines(decoy)
@@ -1544,6 +1573,17 @@ func VerifNamespaces(n int) {
 		other := "module Zz\nclass Aa\ndef foo\n\"decoy\"\nend\nend\nend\n"
 		a, b, name = top, other+top, "namesake-inside-unrelated-module-before"
 		at, delta = 1, verifCountLines(other)
+	case 4: // top level vs wrapped in one module with the superclass written qualified
+		a, b, name, wrap = top, "module Mm\n"+groupQ("Mm::")+"end\n"+refs("Mm::"), "wrapping-in-module-with-qualified-superclass", 1
+	case 5: // top level vs wrapped in two modules with the superclass written fully qualified
+		a, b, name, wrap, qual = top, wrapped2q, "wrapping-in-two-modules-with-qualified-superclass", 2, "Mm::Nn::"
+	case 6: // two-module group vs the same next to a namesake group in the reversed namespace
+		rev := "module Nn\nmodule Mm\nclass Aa\ndef foo\n:decoy\nend\nend\nend\nend\n"
+		a, b, name = wrapped2q, rev+wrapped2q, "namesake-in-reversed-namespace-before"
+		at, delta = 1, verifCountLines(rev)
+	case 7: // two-module group vs the same next to a top-level namesake of the superclass
+		a, b, name = wrapped2q, decoy+wrapped2q, "top-level-namesake-of-superclass-before-two-module-group"
+		at, delta = 1, verifCountLines(decoy)
 	}
 	outA, outB := verifRunTwo(a, b)
 	verifapi.Reach("ran")
@@ -1551,12 +1591,14 @@ func VerifNamespaces(n int) {
 	verifapi.Witness("srcB", b)
 	verifapi.Witness("C27.variant", verifItoa(variant))
 	verifapi.Witness("C27.glines", verifItoa(glines))
+	verifapi.Witness("C27.wrap", verifItoa(wrap))
+	verifapi.Witness("C27.qual", qual)
 	verifapi.Witness("C27-ns.at", verifItoa(at))
 	verifapi.Witness("C27-ns.delta", verifItoa(delta))
 	verifapi.Classify("C27/" + name + "/depth" + verifItoa(depth))
-	if variant == 0 {
-		// B's rows: +1 for `module Mm`, and +1 more after the group for the module's `end`
-		nb := verifDropShift(verifDropShift(strings.ReplaceAll(outB, "Mm::", ""), glines+2, 1), 1, 1)
+	if wrap > 0 {
+		// B's rows: +wrap for the `module` lines, and +wrap more after the group for their `end`s
+		nb := verifDropShift(verifDropShift(strings.ReplaceAll(outB, qual, ""), glines+wrap+1, wrap), 1, wrap)
 		verifapi.Assert(nb == outA, "C27-ns")
 		return
 	}
@@ -1571,30 +1613,33 @@ func VerifNamespaces(n int) {
 // methods for an instance receiver (and vice versa), no private method of another class.
 func VerifSuggest(n int) {
 	recv := verifapi.Concrete(verifapi.Int("receiver", 0, 3))
-	dot := verifapi.Concrete(verifapi.Int("dot", 0, 1))
+	dot := verifapi.Concrete(verifapi.Int("dot", 0, 2))
 	s := &verifSym{}
 	if recv == 2 {
 		s.ka = verifapi.Int("ka", 1, 2) // Integer or String
 		builtin.VerifInstallSymValues([]string{"a"}, map[string]base.T{"a": *base.VerifKindT(s.ka)})
 		verifapi.WitnessList("Sym.a", verifKN(s.ka))
 	}
-	src := "class Aa\ndef pa\n1\nend\nprivate\ndef secret\n2\nend\nend\nclass Bb < Aa\ndef pb\n3\nend\ndef self.cb\n4\nend\nend\nclass Zz\ndef pz\n5\nend\nend\nk = Bb.new\nv = Sym.a\n"
+	src := "module Wk\ndef self.mod_static\n6\nend\ndef mod_inst\n7\nend\nend\nclass Aa\ninclude Wk\ndef pa\n1\nend\nprivate\ndef secret\n2\nend\nend\nclass Bb < Aa\ndef pb\n3\nend\ndef self.cb\n4\nend\nend\nclass Zz\ndef pz\n5\nend\nend\nk = Bb.new\nv = Sym.a\n"
 	if recv != 2 {
 		src = strings.Replace(src, "v = Sym.a\n", "v = 1\n", 1)
 	}
 	row := verifCountLines(src) + 1
 	cursor := []string{"k", "Bb", "v", "[1]"}[recv]
-	if dot == 1 {
+	if dot >= 1 {
 		cursor += "."
 	}
 	src += cursor + "\n"
+	if dot == 2 {
+		src += "zz = 1\n"
+	}
 	verifapi.Witness("src", src)
 	verifapi.Witness("flags", "--suggest --row="+verifItoa(row))
 	flags := cmd.NewExecuteFlags()
 	flags.IsSuggest = true
 	out := verifRunFlags(src, flags, row)
 	verifapi.Reach("ran")
-	form := []string{"receiver-alone", "receiver-with-trailing-dot"}[dot]
+	form := []string{"receiver-alone", "receiver-with-trailing-dot", "receiver-with-trailing-dot-followed-by-a-statement"}[dot]
 	rname := []string{"user-instance", "user-class", "configured-class-value", "array-literal"}[recv]
 	must := func(id, m, what string) {
 		verifapi.Witness(id+".must", m)
@@ -1614,10 +1659,14 @@ func VerifSuggest(n int) {
 		mustNot("C23-unrel", "pz", "method-of-unrelated-class")
 		mustNot("C23-static", "cb", "class-method-for-instance-receiver")
 		mustNot("C23-priv", "secret", "private-method-of-another-class")
+		must("C23-mix", "mod_inst", "instance-method-of-included-module")
+		mustNot("C23-modstatic", "mod_static", "module-level-method-of-included-module")
 	case 1:
 		must("C23-own", "cb", "own-class-method")
 		mustNot("C23-unrel", "pz", "method-of-unrelated-class")
 		mustNot("C23-static", "pb", "instance-method-for-class-receiver")
+		mustNot("C23-mix", "mod_inst", "instance-method-of-included-module-for-class-receiver")
+		mustNot("C23-modstatic", "mod_static", "module-level-method-of-included-module")
 	case 2:
 		must("C23-own", verifapi.Pick(s.ka-1, "times", "upcase"), "configured-class-method")
 		must("C23-obj", "nil?", "object-method")
